@@ -1085,6 +1085,9 @@ def _deferred_chunk(acc, keys):
             for d in disps:
                 try:
                     d._read_queue()
+                    # the loop is meant to run for ever: returning (instead of waiting for the next item) ends the worker
+                    acc.violation(f'deferred/notification-worker-ends/{k.split(":")[-1]}/{tag}',
+                                  {'request': k, 'path': pth, 'answered_with': status}, case={'kind': 'deferred', 'req': k})
                 except _StopDrain:
                     pass
                 except Exception as ex:  # noqa: BLE001
